@@ -294,35 +294,55 @@ func checkDispatch(r *Run, prog *Program, ga *GA) {
 		r.Check("c15.dispatch", "node-type:"+tn, prog.pos(fd.Pos()), arms[tn], "table nodes of type *"+tn+" have no arm in parseExpr's type switch (a recovered panic would reject valid input)")
 	}
 	// rules are registered under their name and looked up by the reference's name
+	// decided on the SSA of the whole grammar package, wherever the table is built: every store into a map from rule names
+	// to rules puts a rule under its own name; the reference parser reads that map under the reference's name
 	okBuild, okLookup := false, false
-	if b := funcDecl(prog.Grammar, "parser", "buildRulesTable"); b != nil {
-		ast.Inspect(b.Body, func(n ast.Node) bool {
-			if as, ok := n.(*ast.AssignStmt); ok && len(as.Lhs) == 1 {
-				if ix, ok := as.Lhs[0].(*ast.IndexExpr); ok {
-					if sel, ok := ix.Index.(*ast.SelectorExpr); ok && sel.Sel.Name == "name" {
-						if id, ok := sel.X.(*ast.Ident); ok {
-							if rid, ok := as.Rhs[0].(*ast.Ident); ok && rid.Name == id.Name {
-								okBuild = true
-							}
+	isRuleMap := func(t types.Type) bool {
+		m, ok := t.Underlying().(*types.Map)
+		if !ok {
+			return false
+		}
+		pt, ok := m.Elem().Underlying().(*types.Pointer)
+		return ok && namedIs(pt.Elem(), grammarPath, "rule") && types.Identical(m.Key().Underlying(), types.Typ[types.String])
+	}
+	nameOf := func(v ssa.Value) ssa.Value {
+		// *(&X.name) → X
+		ld, ok := v.(*ssa.UnOp)
+		if !ok || ld.Op != token.MUL {
+			return nil
+		}
+		fa, ok := ld.X.(*ssa.FieldAddr)
+		if !ok || fieldName(fa.X.Type(), fa.Field) != "name" {
+			return nil
+		}
+		return fa.X
+	}
+	nUpd, badUpd := 0, 0
+	for _, fn := range prog.ModuleFuncs() {
+		if fn.Pkg != prog.GrammarSSA {
+			continue
+		}
+		for _, blk := range fn.Blocks {
+			for _, ins := range blk.Instrs {
+				switch x := ins.(type) {
+				case *ssa.MapUpdate:
+					if isRuleMap(x.Map.Type()) {
+						nUpd++
+						if nameOf(x.Key) == nil || nameOf(x.Key) != x.Value {
+							badUpd++
+						}
+					}
+				case *ssa.Lookup:
+					if isRuleMap(x.X.Type()) && fn.Name() == "parseRuleRefExpr" {
+						if base := nameOf(x.Index); base != nil && len(fn.Params) == 2 && base == ssa.Value(fn.Params[1]) {
+							okLookup = true
 						}
 					}
 				}
 			}
-			return true
-		})
+		}
 	}
-	if b := funcDecl(prog.Grammar, "parser", "parseRuleRefExpr"); b != nil {
-		ast.Inspect(b.Body, func(n ast.Node) bool {
-			if ix, ok := n.(*ast.IndexExpr); ok {
-				if sel, ok := ix.Index.(*ast.SelectorExpr); ok && sel.Sel.Name == "name" {
-					if xs, ok := ix.X.(*ast.SelectorExpr); ok && xs.Sel.Name == "rules" {
-						okLookup = true
-					}
-				}
-			}
-			return true
-		})
-	}
+	okBuild = nUpd > 0 && badUpd == 0
 	r.Check("c15.rule-table-keyed-by-name", "buildRulesTable", "grammar/grammar.go", okBuild, "buildRulesTable does not register each rule under its own name")
 	r.Check("c15.rule-table-keyed-by-name", "parseRuleRefExpr", "grammar/grammar.go", okLookup, "parseRuleRefExpr does not look the rule up by the reference's name")
 }
